@@ -106,6 +106,57 @@ def run():
 
 
 run()
+# ---- every basis-managed class: presented in the context's basis inside (nested), back at its original values afterwards -----------
+try:
+    from quantarhei.qm import (RedfieldRelaxationTensor, TDRedfieldRelaxationTensor, FoersterRelaxationTensor,
+                               EvolutionSuperOperator)
+    ta_ = qr.TimeAxis(0.0, 200, 1.0)
+    with qr.energy_units("1/cm"):
+        mols_ = []
+        for k_ in range(3):
+            m_ = qr.Molecule([0.0, 12000.0 + 150 * k_])
+            m_.set_dipole(0, 1, [1.0, 0.2 * k_, 0.1])
+            m_.set_transition_environment((0, 1), qr.CorrelationFunction(ta_, dict(ftype="OverdampedBrownian", reorg=30.0 + 5 * k_,
+                                                                                  cortime=60.0, T=300.0, matsubara=20)))
+            mols_.append(m_)
+        ag_ = qr.Aggregate(mols_)
+        ag_.set_resonance_coupling(0, 1, 80.0)
+        ag_.set_resonance_coupling(1, 2, -40.0)
+    ag_.build()
+    hm_, sb_ = ag_.get_Hamiltonian(), ag_.get_SystemBathInteraction()
+    with qr.energy_units("int"):
+        hm2_ = qr.Hamiltonian(data=numpy.array(hm_.data) + numpy.diag([0, 0.001, -0.002, 0.003]))
+    rt_ = RedfieldRelaxationTensor(hm_, sb_)
+    r0_ = ReducedDensityMatrix(dim=4)
+    r0_.data[1, 1], r0_.data[2, 2] = 0.6, 0.4
+    r0_.data[1, 2] = r0_.data[2, 1] = 0.2
+    eS_ = EvolutionSuperOperator(qr.TimeAxis(0.0, 4, 10.0), hm_, rt_)
+    eS_.set_dense_dt(10)
+    eS_.calculate(show_progress=False)
+    things = {"Redfield tensor": (rt_, "data"), "Redfield operators": (RedfieldRelaxationTensor(hm_, sb_, as_operators=True), "Lm"),
+              "time-dependent Redfield tensor": (TDRedfieldRelaxationTensor(hm_, sb_), "data"),
+              "Foerster tensor": (FoersterRelaxationTensor(hm_, sb_), "data"),
+              "transition dipole operator": (ag_.get_TransitionDipoleMoment(), "data"),
+              "density-matrix evolution": (qr.ReducedDensityMatrixPropagator(qr.TimeAxis(0.0, 20, 1.0), hm_, rt_).propagate(r0_), "data"),
+              "evolution superoperator": (eS_, "data")}
+    for name_, (o_, at_) in things.items():
+        before_ = numpy.array(getattr(o_, at_)).copy()
+        tol_ = 1e-11 * max(1.0, abs(before_).max())
+        for outer_, inner_ in ((hm_, hm2_), (hm2_, hm_)):
+            with eigenbasis_of(outer_):
+                in1_ = numpy.array(getattr(o_, at_)).copy()
+                with eigenbasis_of(inner_):
+                    _ = numpy.array(getattr(o_, at_)).copy()
+                in2_ = numpy.array(getattr(o_, at_)).copy()
+            after_ = numpy.array(getattr(o_, at_)).copy()
+            if not close(in1_, in2_, tol_):
+                bad.append("%s: presentation inside a context changes after a nested context was entered and left" % name_)
+            if not close(after_, before_, tol_):
+                bad.append("%s: not back at its original values after the contexts are left (max deviation %.3e)"
+                           % (name_, abs(after_ - before_).max()))
+except Exception as e_:      # noqa
+    bad.append("class sweep raised %s: %s" % (type(e_).__name__, str(e_)[:120]))
+
 for b in bad:
     print("VIOLATED:", b)
 print("C04 oracle: %d violations" % len(bad))
